@@ -2960,12 +2960,21 @@ func fileFromReader(name string, reader io.Reader) (*File, error) {
 // References:
 //   - https://datatracker.ietf.org/doc/html/rfc2183
 func fileFromReadSeeker(name string, reader io.ReadSeeker) *File {
+	// the file starts where the reader stands when it is handed over; every render starts there,
+	// so that all renders of the message carry the same content
+	start, startErr := reader.Seek(0, io.SeekCurrent)
 	return &File{
 		Name:   name,
 		Header: make(map[string][]string),
 		Writer: func(writer io.Writer) (int64, error) {
+			if startErr != nil {
+				return 0, startErr
+			}
+			if _, err := reader.Seek(start, io.SeekStart); err != nil {
+				return 0, err
+			}
 			readBytes, err := io.Copy(writer, reader)
-			_, seekErr := reader.Seek(0, io.SeekStart)
+			_, seekErr := reader.Seek(start, io.SeekStart)
 			if err != nil {
 				return readBytes, err
 			}
